@@ -193,7 +193,7 @@ pub fn with_binary(mut s: Spec, sel: &[u16]) -> Spec {
 /// boundaries it does NOT mark left out: a ConcatSource contributes its tag and then its children back to
 /// back (no count, no terminator); a ReplaceSource its tag, its replacements in sorted order and then its
 /// inner source; a Box nothing of its own; a CachedSource hashes its inner source separately and
-/// contributes one value, so it is atomic here, like every leaf.
+/// contributes one value, a function of the inner sequence; leaves are atomic.
 pub fn hash_tokens(s: &Spec, built_how: bool) -> Vec<String> {
   match s {
     Spec::Concat { how, children } => {
@@ -213,6 +213,9 @@ pub fn hash_tokens(s: &Spec, built_how: bool) -> Vec<String> {
       v
     }
     Spec::Boxed(inner) => hash_tokens(inner, built_how),
+    // one value, computed by feeding the inner source's sequence to the CachedSource's own hasher: two inner trees with the
+    // same sequence give the same value (K2 beneath a CachedSource is still K2)
+    Spec::Cached(inner) => vec![format!("CachedSource<{}>", hash_tokens(inner, built_how).join("\u{1}"))],
     other => vec![serde_json::to_string(other).unwrap_or_default()],
   }
 }
